@@ -8,8 +8,10 @@ import (
 
 	"github.com/jamespfennell/gtfs"
 	"github.com/jamespfennell/gtfs/extensions/nyctalerts"
+	"github.com/jamespfennell/gtfs/extensions/nycttrips"
 	vr "github.com/jamespfennell/gtfs/internal/verifrt"
 	gtfsrt "github.com/jamespfennell/gtfs/proto"
+	"google.golang.org/protobuf/proto"
 )
 
 func init() {
@@ -17,6 +19,7 @@ func init() {
 	vr.Register("Harness_C06_realtime_order", Harness_C06_realtime_order)
 	vr.Register("Harness_C06_history_nyctalerts", Harness_C06_history_nyctalerts)
 	vr.Register("Harness_C06_history_plain", Harness_C06_history_plain)
+	vr.Register("Harness_C06_history_nycttrips", Harness_C06_history_nycttrips)
 	vr.Register("Harness_C06_history_realtime_zone", Harness_C06_history_realtime_zone)
 	vr.Register("Harness_C06_history_static", Harness_C06_history_static)
 }
@@ -75,6 +78,11 @@ func hRealtimeMsg() *gtfsrt.FeedMessage {
 	vr.Assume(va != "" && vb != "" && va != vb)
 	ta, tb := vr.Str("trip.a"), vr.Str("trip.b")
 	vr.Assume(ta != "" && tb != "" && ta != tb)
+	sels := []*gtfsrt.EntitySelector{{Trip: &gtfsrt.TripDescriptor{RouteId: &ra}}, {Trip: &gtfsrt.TripDescriptor{RouteId: &rb}}}
+	if vr.Param("ALERTDIR", 0) == 1 {
+		// the first route again, now with a direction (after the direction-less mention)
+		sels = append(sels, &gtfsrt.EntitySelector{Trip: &gtfsrt.TripDescriptor{RouteId: &ra, DirectionId: vr.P(uint32(0))}})
+	}
 	e3 := &gtfsrt.TripUpdate{Trip: &gtfsrt.TripDescriptor{TripId: &tb}}
 	if vr.Param("DUPV", 0) == 1 {
 		// a second trip claiming the first vehicle (not conflict-free, but a parse of it must still be deterministic)
@@ -93,8 +101,7 @@ func hRealtimeMsg() *gtfsrt.FeedMessage {
 		{Id: hStr("e1"), Vehicle: &gtfsrt.VehiclePosition{Vehicle: &gtfsrt.VehicleDescriptor{Id: &va}, Trip: &gtfsrt.TripDescriptor{TripId: &ta}}},
 		{Id: hStr("e2"), Vehicle: &gtfsrt.VehiclePosition{Vehicle: &gtfsrt.VehicleDescriptor{Id: &vb}}},
 		{Id: hStr("e3"), TripUpdate: e3},
-		{Id: hStr("e4"), Alert: &gtfsrt.Alert{InformedEntity: []*gtfsrt.EntitySelector{
-			{Trip: &gtfsrt.TripDescriptor{RouteId: &ra}}, {Trip: &gtfsrt.TripDescriptor{RouteId: &rb}}}}},
+		{Id: hStr("e4"), Alert: &gtfsrt.Alert{InformedEntity: sels}},
 	}}
 }
 
@@ -142,9 +149,9 @@ func Harness_C06_history_nyctalerts() {
 	}
 	a, b := hElevatorMsg("a"), hElevatorMsg("b")
 	shared := mk()
+	fresh, errF := gtfs.ParseRealtime(vr.Marshal(b), mk()) // the reference comes first (see history_nycttrips)
 	_, errA := gtfs.ParseRealtime(vr.Marshal(a), shared)
 	rb, errB := gtfs.ParseRealtime(vr.Marshal(b), shared)
-	fresh, errF := gtfs.ParseRealtime(vr.Marshal(b), mk())
 	vr.Assert("C06.returns", errA == nil && errB == nil && errF == nil)
 	if rb == nil || fresh == nil {
 		return
@@ -155,9 +162,9 @@ func Harness_C06_history_nyctalerts() {
 func Harness_C06_history_plain() {
 	a, b := hRealtimeMsg(), hElevatorMsg("b")
 	shared := &gtfs.ParseRealtimeOptions{}
+	fresh, errF := gtfs.ParseRealtime(vr.Marshal(b), &gtfs.ParseRealtimeOptions{}) // the reference comes first
 	_, errA := gtfs.ParseRealtime(vr.Marshal(a), shared)
 	rb, errB := gtfs.ParseRealtime(vr.Marshal(b), shared)
-	fresh, errF := gtfs.ParseRealtime(vr.Marshal(b), &gtfs.ParseRealtimeOptions{})
 	vr.Assert("C06.returns", errA == nil && errB == nil && errF == nil)
 	if rb == nil || fresh == nil {
 		return
@@ -234,4 +241,33 @@ func Harness_C06_history_static() {
 	if len(s.RemovedDates) == 1 {
 		vr.Assert("C06.history.static", vr.DeepEq(s.RemovedDates[0], want))
 	}
+}
+
+// Feed A (an unassigned NYCT trip the stale filter drops, as first entity) then feed B (vehicle
+// position first, then a trip update) with one options value and the nycttrips extension:
+// B's result equals the result of parsing B with fresh options.
+func Harness_C06_history_nycttrips() {
+	mk := func() *gtfs.ParseRealtimeOptions {
+		return &gtfs.ParseRealtimeOptions{Extension: nycttrips.Extension(nycttrips.ExtensionOpts{FilterStaleUnassignedTrips: true})}
+	}
+	ver, ts := "2.0", uint64(1000)
+	tid, route, unassigned := "012345_A..N", "A", false
+	td := &gtfsrt.TripDescriptor{TripId: &tid, RouteId: &route}
+	proto.SetExtension(td, gtfsrt.E_NyctTripDescriptor, &gtfsrt.NyctTripDescriptor{IsAssigned: &unassigned})
+	a := &gtfsrt.FeedMessage{Header: &gtfsrt.FeedHeader{GtfsRealtimeVersion: &ver, Timestamp: &ts}, Entity: []*gtfsrt.FeedEntity{
+		// at least as many entities as feed B, every one of them dropped
+		{Id: hStr("a1"), TripUpdate: &gtfsrt.TripUpdate{Trip: td}}, {Id: hStr("a2"), TripUpdate: &gtfsrt.TripUpdate{Trip: td}},
+		{Id: hStr("a3"), TripUpdate: &gtfsrt.TripUpdate{Trip: td}}, {Id: hStr("a4"), TripUpdate: &gtfsrt.TripUpdate{Trip: td}},
+		{Id: hStr("a5"), TripUpdate: &gtfsrt.TripUpdate{Trip: td}}}}
+	b := hRealtimeMsg()
+	shared := mk()
+	// the reference parse of B comes first: package-level state left behind by A would spoil a later one as well
+	fresh, errF := gtfs.ParseRealtime(vr.Marshal(b), mk())
+	_, errA := gtfs.ParseRealtime(vr.Marshal(a), shared)
+	rb, errB := gtfs.ParseRealtime(vr.Marshal(b), shared)
+	vr.Assert("C06.returns", errA == nil && errB == nil && errF == nil)
+	if rb == nil || fresh == nil {
+		return
+	}
+	vr.Assert("C06.history.nycttrips", vr.And(vr.DeepEq(rb.Alerts, fresh.Alerts), vr.DeepEq(rb.Trips, fresh.Trips), vr.DeepEq(rb.Vehicles, fresh.Vehicles)))
 }
